@@ -119,6 +119,11 @@ def run(ctx):
     ctx.inst("C14.R1", "control#pattern-matches-elsewhere", True if ctrl >= 1 else None, "the pattern matches %d byte-offset API sites in blots-core outside the evaluator: the rule is not vacuous" % ctrl, None)
 
     # ---------------- R2 stable sort
+    # indexing inside a function body: the index expression's variables are captured like any others
+    ctx.rule("C14.R5", "inside a function, `x[i]` and `x.f` see the same x and i as outside: the capture analysis visits both the indexed expression and the index expression (an index variable that is not captured is looked up at call time, where it is unbound or someone else's)", floor=2)
+    from rules import c04 as c04_
+    c04_.free_variable_rule(ctx, "C14.R5", core, only=lambda k: k.startswith("recurses-into=Expr::Access") or k.startswith("recurses-into=Expr::DotAccess"))
+
     ctx.rule("C14.R2", "sort and sort_by use the stable slice::sort_by; no sort_unstable* anywhere in the built-ins", floor=3)
     BA = M.BuiltinArms(core, cg)
     for v in ("Sort", "SortBy"):
